@@ -1076,15 +1076,28 @@ class BootstrapElectionModel(BaseElectionModel):
 
             contest_indicator = pd.get_dummies(all_units["postal_code-district"])
             postal_code_indicator = pd.get_dummies(all_units["postal_code"])
+            # a state that only shows up through unexpected units has no unit the model is fit on or predicts for
+            postal_code_indicator = postal_code_indicator.loc[
+                :, postal_code_indicator.iloc[: (n_train + n_test)].sum(axis=0) > 0
+            ]
+
+            # which districts get an effect of their own is decided by the expected units only: an unexpected unit
+            # must not change the model that is fit to all the other units
+            expected_units = all_units.iloc[: (n_train + n_test)]
+            contest_indicator_expected = contest_indicator.iloc[: (n_train + n_test)]
 
             # drop districts that are at-large districts for a state
-            postal_code_filter = all_units.groupby("postal_code")["postal_code-district"].nunique() > 1
+            postal_code_filter = expected_units.groupby("postal_code")["postal_code-district"].nunique() > 1
             valid_postal_codes = postal_code_filter[postal_code_filter].index
-            valid_districts = all_units[all_units.postal_code.isin(valid_postal_codes)]["postal_code-district"].unique()
+            valid_districts = expected_units[expected_units.postal_code.isin(valid_postal_codes)][
+                "postal_code-district"
+            ].unique()
             contest_indicator_filtered = contest_indicator.loc[:, valid_districts]
 
             # drop contest indicators if there are fewer than 10 units in contest
-            contest_indicator_filtered = contest_indicator_filtered.loc[:, contest_indicator.sum(axis=0) > 10]
+            contest_indicator_filtered = contest_indicator_filtered.loc[
+                :, contest_indicator_expected.loc[:, valid_districts].sum(axis=0) > 10
+            ]
 
             self.aggregate_names = {
                 c: i
@@ -1097,6 +1110,8 @@ class BootstrapElectionModel(BaseElectionModel):
             )
         else:
             contest_indicator = pd.get_dummies(all_units["postal_code"])
+            # a state that only shows up through unexpected units has no unit the model is fit on or predicts for
+            contest_indicator = contest_indicator.loc[:, contest_indicator.iloc[: (n_train + n_test)].sum(axis=0) > 0]
             self.aggregate_names = {c: i for i, c in enumerate(contest_indicator.columns.tolist())}
             aggregate_indicator = contest_indicator.values
 
